@@ -26,7 +26,7 @@ func init() {
 		},
 		NumCases: func(tier string) int {
 			if tier == "thorough" {
-				return 100000
+				return 400000
 			}
 			return 6000
 		},
